@@ -2,8 +2,14 @@ package main
 
 import (
 	"verif/props/c04"
+	"verif/props/c06"
+	"verif/props/c11"
+	"verif/props/c18"
 )
 
 func init() {
 	props["C04"] = prop{c04.Run, c04.Replay}
+	props["C06"] = prop{c06.Run, c06.Replay}
+	props["C11"] = prop{c11.Run, c11.Replay}
+	props["C18"] = prop{c18.Run, c18.Replay}
 }
